@@ -21,6 +21,24 @@ impl ZvtParser for RawFrame {
     }
 }
 
+/// A reply parser in the style of the derived reply enums: control fields with an odd instruction byte are outside its reply
+/// set (WrongTag, also when probed with the two control-field bytes only), the others are returned as framed.
+pub struct Picky(pub Vec<u8>);
+impl ZvtParser for Picky {
+    fn zvt_parse(bytes: &[u8]) -> ZVTResult<Self> {
+        if bytes.len() < 2 {
+            return Err(zvt::ZVTError::IncompleteData);
+        }
+        if bytes[1] & 1 == 1 {
+            return Err(zvt::ZVTError::WrongTag(zvt::Tag(0)));
+        }
+        if bytes.len() < 3 {
+            return Err(zvt::ZVTError::IncompleteData);
+        }
+        Ok(Picky(bytes.to_vec()))
+    }
+}
+
 /// Harness command with a body of any exact length (hex text -> bytes), control field 0e 0b (unused by the protocol).
 #[derive(Debug, PartialEq, Zvt)]
 #[zvt_control_field(class = 0x0e, instr = 0x0b)]
@@ -54,6 +72,9 @@ pub struct StreamCase {
     pub chunks: Vec<usize>,
     /// the stream ends after this many bytes
     pub eof: Option<usize>,
+    /// read with a parser that rejects part of the control fields (`Picky`): a rejected packet is consumed all the same
+    #[serde(default)]
+    pub picky: bool,
 }
 
 pub fn check_stream(c: &StreamCase) -> CheckResult {
@@ -68,7 +89,8 @@ pub fn check_stream(c: &StreamCase) -> CheckResult {
     for (i, p) in packets.iter().enumerate() {
         start = end;
         end += p.len();
-        let res = guard(|| block_on(tr.read_packet::<RawFrame>())).map_err(|e| Violation::new("stream", "C04 kind=panic".to_string(), e, input.clone()))?;
+        let foreign = c.picky && p.len() >= 2 && p[1] & 1 == 1;
+        let res = guard(|| if c.picky { block_on(tr.read_packet::<Picky>()).map(|x| RawFrame(x.0)) } else { block_on(tr.read_packet::<RawFrame>()) }).map_err(|e| Violation::new("stream", "C04 kind=panic".to_string(), e, input.clone()))?;
         let complete = c.eof.map_or(true, |e| end <= e);
         // no read may ask for more than what remains of the current packet
         let mut pos = start;
@@ -82,6 +104,16 @@ pub fn check_stream(c: &StreamCase) -> CheckResult {
             }
         }
         log_from = tr.source.log.len();
+        if complete && foreign {
+            // outside the parser's reply set: an error, and the packet is consumed exactly like any other
+            if let Ok(RawFrame(f)) = &res {
+                return Err(Violation::new("stream", "C04 kind=foreign-packet-returned".to_string(), format!("packet {i}: the parser rejects its control field, yet read_packet returned {}", clip(&hex(f), 120)), input));
+            }
+            if tr.source.delivered() != end {
+                return Err(Violation::new("stream", "C04 kind=rejected-packet-not-consumed".to_string(), format!("packet {i} ({} bytes, control field outside the parser's reply set) was rejected after {} of its bytes were consumed (stream offset {}, the packet ends at {end}): the rest would be read as the next packet", p.len(), tr.source.delivered().saturating_sub(start), tr.source.delivered()), input));
+            }
+            continue;
+        }
         match (complete, res) {
             (true, Ok(RawFrame(f))) => {
                 if f != *p {
@@ -173,7 +205,7 @@ pub fn case_from_fuzz(data: &[u8]) -> Option<StreamCase> {
     }
     let total: usize = packets.iter().map(|p| p.len() / 2).sum();
     let eof = if eof_sel % 3 == 0 { Some(eof_sel as usize * (total + 1) / 256) } else { None };
-    Some(StreamCase { packets, chunks, eof })
+    Some(StreamCase { packets, chunks, eof, picky: false })
 }
 
 pub fn replay(check: &str, i: &Value) -> Option<CheckResult> {
@@ -276,7 +308,7 @@ pub fn run(tier: Tier) -> i32 {
         for mask in 0..masks {
             let eofs: Vec<Option<usize>> = if mask % 64 == 0 || tier == Tier::Thorough { std::iter::once(None).chain((0..=n).map(Some)).collect() } else { vec![None, Some((mask as usize * 7) % (n + 1))] };
             for eof in eofs {
-                let c = StreamCase { packets: hexes.clone(), chunks: partition_chunks(n, mask), eof };
+                let c = StreamCase { packets: hexes.clone(), chunks: partition_chunks(n, mask), eof, picky: mask % 3 == 1 };
                 let nt = classify(&c, st);
                 st.case(nt, fnv(&serde_json::to_vec(&c).unwrap()));
                 st.class("exhaustive-partition");
@@ -322,14 +354,20 @@ pub fn run(tier: Tier) -> i32 {
             4 => proptest::collection::vec(1usize..9, 1..8),
             2 => proptest::collection::vec(prop_oneof![1usize..4, 100usize..5000], 1..6),
         ];
-        let strat = (proptest::collection::vec(packet, 1..6), chunks, proptest::option::weighted(0.35, any::<u32>())).prop_map(|(packets, chunks, eof)| {
+        let strat = (proptest::collection::vec(packet, 1..6), chunks, proptest::option::weighted(0.35, any::<u32>()), prop::bool::weighted(0.4)).prop_map(|(packets, chunks, eof, picky)| {
             let total: usize = packets.iter().map(|p| p.len() / 2).sum();
-            StreamCase { packets, chunks, eof: eof.map(|e| (e as u64 * (total as u64 + 1) >> 32) as usize) }
+            StreamCase { packets, chunks, eof: eof.map(|e| (e as u64 * (total as u64 + 1) >> 32) as usize), picky }
         });
         ctx.proptest(seed, nrand / 16, &strat, st, |c, st| {
             let nt = classify(c, st);
             st.case(nt, fnv(&serde_json::to_vec(c).unwrap()));
             st.class("random-sequence");
+            if c.picky {
+                st.class("read-with-a-rejecting-parser");
+                if c.packets.iter().any(|p| p.len() > 520 && u8::from_str_radix(&p[2..4], 16).map(|i| i & 1 == 1).unwrap_or(false)) {
+                    st.class("read-with-a-rejecting-parser:rejected-extended-length-packet");
+                }
+            }
             check_stream(c)
         });
     });
@@ -361,7 +399,7 @@ pub fn run(tier: Tier) -> i32 {
     stats.exhaustive_parts = vec!["writer/reader header agreement for every body length 0..=65535".into(), "all 2^(n-1) chunkings of 4 short packet concatenations (8..14 bytes)".into()];
     ctx.finish(
         stats,
-        "header sweep over all body lengths (writer output vs reference header; reader on one chunk and byte-wise header); all chunkings of short concatenations x end-of-stream positions; proptest sequences of 1..5 packets (reference-encoded canonical commands, blobs with body lengths around 0/254/255/65535, extended-form headers) x chunk schedules (all-at-once, 1-byte, random partitions; a Pending wake-up between chunks) x end-of-stream offsets. Oracle: frames returned = the packets in order; after packet i the read cursor is exactly at its end and no read asked beyond it; a stream ending inside a packet or at a boundary yields an error. non-trivial = (>= 2 packets and a chunk boundary inside a header) or an extended-length packet; distinct by (packets, schedule, eof)",
+        "header sweep over all body lengths (writer output vs reference header; reader on one chunk and byte-wise header); all chunkings of short concatenations x end-of-stream positions; proptest sequences of 1..5 packets (reference-encoded canonical commands, blobs with body lengths around 0/254/255/65535, extended-form headers) x chunk schedules (all-at-once, 1-byte, random partitions; a Pending wake-up between chunks) x end-of-stream offsets x the parser handed to read_packet (one that returns the frame, or one that rejects every control field with an odd instruction byte the way the derived reply enums reject foreign ones). Oracle: frames returned = the packets in order (a rejected packet yields an error and is consumed like any other); after packet i the read cursor is exactly at its end and no read asked beyond it; a stream ending inside a packet or at a boundary yields an error. non-trivial = (>= 2 packets and a chunk boundary inside a header) or an extended-length packet; distinct by (packets, schedule, eof)",
         &["RawFrame (harness ZvtParser copying its input) makes read_packet return what the transport framed", "in-memory streams never produce short writes"],
         false,
     )
